@@ -110,6 +110,9 @@ func (w *walletFileScrypt) decrypt(password []byte) error {
 	if w.Crypto.KDFParams.DKLen != derivedKeyLen {
 		return fmt.Errorf("invalid scrypt keystore: derived key length %d != %d", w.Crypto.KDFParams.DKLen, derivedKeyLen)
 	}
+	if w.Crypto.KDFParams.R <= 0 || w.Crypto.KDFParams.P <= 0 {
+		return fmt.Errorf("invalid scrypt keystore: r=%d and p=%d must be positive", w.Crypto.KDFParams.R, w.Crypto.KDFParams.P)
+	}
 	derivedKey, err := scrypt.Key(password, w.Crypto.KDFParams.Salt, w.Crypto.KDFParams.N, w.Crypto.KDFParams.R, w.Crypto.KDFParams.P, w.Crypto.KDFParams.DKLen)
 	if err != nil {
 		return fmt.Errorf("invalid scrypt keystore: %s", err)
